@@ -70,6 +70,15 @@ CHECKS["C13"] = dict(
           "tied by correspondence + metamorphic oracles on the implementation (partial)."),
     design="6/C13", technique="Coq proof over R (sqrt/field/nra) + vm_compute correspondence at binary64")
 
+CHECKS["C15"] = dict(
+    text=("Theorems over R about the Gallina model: map_tfunc_to_vfunc conserves totals (weighted: the area integral, with the coded "
+          "Heron areas proved equal to |cross|/2); map_vfunc_to_tfunc is the corner mean and maps constants to constants; one smoothing "
+          "step is exactly the mean over the distinct edge neighbours (vertex areas cancel), hence weights >= 0 summing to 1 on "
+          "neighbours, linear, fixes constants, and k steps stay in [lo,hi] (induction). Column-wise action, ValueError on wrong length, "
+          "smooth_ and dtype handling are tied by correspondence + oracles. The clause 'map_tfunc_to_vfunc maps constants to constants' "
+          "is refuted by the code and the model alike (known finding F13: conflicts with conservation)."),
+    design="6/C15", technique="Coq proof over R (scatter/sum lemmas, field, induction on iterations) + vm_compute correspondence")
+
 NOT_YET = {}
 
 
